@@ -255,17 +255,27 @@ def range_loop(ex, st, s, fid, it):
         'components start at index 0', s.lineno))
     h = z3.simplify(hi.t)
     kcur = st.ghost.get('k')
-    if kcur is None and z3.eq(h, NT):
-        kind = 'terms'
-    elif kcur is not None and z3.eq(h, z3.simplify(NF(kcur))):
-        kind = 'arguments-of-term'
-    elif kcur is None and z3.eq(h, z3.simplify(NF(Z(0)))):
-        kind = 'arguments'
-    elif kcur is None and z3.eq(h, z3.simplify(ALEN(Z(0), Z(0)))):
-        kind = 'components'
+    # which loop this is follows from where it stands (the path condition):
+    # inside the term loop it runs over the arguments of the current term;
+    # for one max with one argument over the components of that argument;
+    # for one max with several arguments over the arguments; else over the
+    # terms.  Its bound must be the corresponding length.
+    one_max = ex.decide(st, z3.And(NT == 1, CLS(Z(0)))) is True
+    if kcur is not None:
+        kind, want = 'arguments-of-term', NF(kcur)
+    elif one_max and ex.decide(st, NF(Z(0)) == 1) is True:
+        kind, want = 'components', ALEN(Z(0), Z(0))
+    elif one_max and ex.decide(st, NF(Z(0)) != 1) is True:
+        kind, want = 'arguments', NF(Z(0))
+    elif ex.decide(st, z3.Not(z3.And(NT == 1, CLS(Z(0))))) is True:
+        kind, want = 'terms', NT
     else:
-        raise Unsupported('loop over range(%s): not the terms, the '
-                          'arguments or the components' % h)
+        raise Unsupported('loop over range(%s) at a place the contract does '
+                          'not know' % h)
+    sink.append(('expansion-loops', list(st.pc), hi.t == want,
+                 'the loop over the %s runs up to their number (%s)' % (
+                     kind.replace('-of-term', ' of the term'), want),
+                 s.lineno))
     c = z3.Int(ex.fresh('k' if kind == 'terms' else 'j'))
     b = st.copy()
     b.pc += [c >= 0, c < hi.t]
